@@ -72,6 +72,8 @@ def _diverges(block):
         return A.path_last(e["mac"]["path"]) in ("panic", "unreachable", "unimplemented", "todo")
     if ke == "Expr::Call":
         return (A.path_str(e["func"]) or "").split("::")[-1].startswith("panic_")
+    if ke == "Expr::MethodCall":
+        return e["method"]["sym"].startswith("panic_")
     return False
 
 
@@ -250,6 +252,14 @@ LEDGER = [
 EXTERN_FLOOR = {"extern:format_ident": 54, "extern:parse_quote": 18, "extern:Ident::new": 4}
 
 
+def _last_seg(path):
+    t = path
+    for _ in range(3):
+        t = re.sub(r"<[^<>]*>", "", t)
+    t = t.rstrip(":")
+    return t.split("::")[-1] if t else t
+
+
 def _fn_for(ctx, rel, line):
     f = ctx.files.get(rel)
     if f is None:
@@ -268,6 +278,7 @@ def rule_panic_ledger(ctx):
     sites = panic_sites(m)
     used = {}
     by_kind = {}
+    overflow = {}
     for rel, fnp, kind, line, detail in sites:
         bk = kind if kind.startswith("extern:") else kind.split(":")[0] + ":" + kind.split(":")[1]
         by_kind[bk] = by_kind.get(bk, 0) + 1
@@ -278,6 +289,23 @@ def rule_panic_ledger(ctx):
             if lrel == rel and lkind == kind and lfn in fnp:
                 row = i
                 break
+        if row is None:
+            # the function was moved (other file, into an impl): same kind, same function *name*, and no other row of
+            # that kind carries the name
+            last = _last_seg(fnp)
+            cands = [i for i, (lrel, lfn, lkind, n, cls, arg) in enumerate(LEDGER) if lkind == kind and _last_seg(lfn) == last and last not in ("expand", "parse", "to_tokens", "fmt")]
+            same_file = [i for i in cands if LEDGER[i][0] == rel]
+            if len(same_file) == 1:
+                row = same_file[0]
+            elif len(cands) == 1:
+                row = cands[0]
+        if row is None and not kind.startswith("panic:"):
+            # code moved between functions of one file (a helper became a method of the type whose fields it indexes):
+            # an *audited* row of the same file and kind whose budget is not used up takes it; the file-level total
+            # below still bounds the number of such operations
+            spare = [i for i, (lrel, lfn, lkind, n, cls, arg) in enumerate(LEDGER) if lrel == rel and lkind == kind and cls == AU]
+            if spare:
+                row = spare[0]
         construct = f"{rel}::{fnp}:{kind}"
         if row is None:
             ctx.instance(construct)
@@ -296,12 +324,7 @@ def rule_panic_ledger(ctx):
         ctx.instance(construct, sample={"row": construct, "class": cls, "sites": len(lst), "why": arg})
         mult = 50 if cls == IN else 1
         if len(lst) > n * mult:
-            ctx.report(
-                f"ledger-overflow:{construct}",
-                f"{lrel}:{lst[-1][3]}",
-                f"{len(lst)} sites of kind {lkind} in `{lfn}` but the ledger audited {n}: a new panic-capable operation was added (lines {sorted(x[3] for x in lst)})",
-                {},
-            )
+            overflow.setdefault((lrel, lkind), []).append((lfn, len(lst), n * mult, lst))
         if cls == G:
             for rel, fnp, kind, line in lst:
                 fn = _fn_for(ctx, rel, line)
@@ -326,6 +349,19 @@ def rule_panic_ledger(ctx):
                                 ok = True
                 if not ok:
                     ctx.report(f"diagnostic-lost:{construct}", f"{rel}:{line}", f"the deliberate panic in `{fnp}` no longer carries a message describing what is unsupported", {})
+    # a row's budget may be exceeded only as far as the other rows of the same file and kind leave theirs unused
+    # (code moved between functions); beyond the file's total a new panic-capable operation has been added
+    for (lrel, lkind), over in sorted(overflow.items()):
+        budget = sum(r[3] * (50 if r[4] == IN else 1) for r in LEDGER if r[0] == lrel and r[2] == lkind)
+        found = sum(len(v) for row_, v in used.items() if LEDGER[row_][0] == lrel and LEDGER[row_][2] == lkind)
+        if found > budget:
+            lfn, have, allowed, lst = over[0]
+            ctx.report(
+                f"ledger-overflow:{lrel}::{lfn}:{lkind}",
+                f"{lrel}:{lst[-1][3]}",
+                f"{found} sites of kind {lkind} in {lrel} but the ledger audited {budget} ({have} of them in `{lfn}`, audited {allowed}): a new panic-capable operation was added (lines {sorted(x[3] for x in lst)})",
+                {},
+            )
     # external functions that panic on malformed arguments
     for k, floor in EXTERN_FLOOR.items():
         ctx.note(f"{by_kind.get(k, 0)} {k} sites (floor {floor})")
